@@ -137,6 +137,8 @@ static int cmp_key(const void *a, const void *b, void *p)
     VRT_CHECK(p == (void *)&cmp_token, TK("cmp.priv"), "comparison called with wrong priv %p", p);
     VRT_CHECK(x->magic == MAGIC && y->magic == MAGIC, TK("cmp.non-element"), "comparison called with a non-element");
     cmp_calls++;
+    if (cmp_scale != 1 && ((x->id ^ y->id) & 1))     /* magnitudes on the edges of the integer types */
+        return vrt_cmp_result((x->key > y->key) - (x->key < y->key), (unsigned)(x->id * 131 + y->id * 31 + cmp_scale));
     return x->key < y->key ? -cmp_scale : x->key > y->key ? cmp_scale : 0;
 }
 
